@@ -3,7 +3,9 @@ package vanguard
 import (
 	"errors"
 
+	"google.golang.org/genproto/googleapis/api/httpbody"
 	"google.golang.org/genproto/googleapis/rpc/status"
+	"google.golang.org/protobuf/proto"
 	"google.golang.org/protobuf/types/known/anypb"
 )
 
@@ -107,4 +109,79 @@ func statusUnmarshal(b []byte, st *status.Status) error {
 		}
 	}
 	return nil
+}
+
+// Model of protojson.Unmarshal into google.rpc.Status (what a REST backend's error body is parsed with): the
+// canonical documents {} | {"code":N} | {"message":"text"} | {"code":N,"message":"text"} with N of one or two
+// digits and text free of quotes, backslashes and control characters. A body that does not start an object is
+// not JSON for a message (error, as protojson reports); every other document ends the path as a recorded cut.
+var errStatusJSON = errors.New("proto: syntax error: unexpected token")
+
+func statusJSONUnmarshal(b []byte, st *status.Status) error {
+	if len(b) == 0 || b[0] != '{' {
+		for _, c := range b {
+			if c == ' ' || c == '\t' || c == '\n' || c == '\r' {
+				verifOutside("REST error body with leading whitespace (outside the protojson model)")
+			}
+			break
+		}
+		return errStatusJSON
+	}
+	st.Code, st.Message, st.Details = 0, "", nil
+	rest := b[1:]
+	const kCode, kMsg = `"code":`, `"message":"`
+	if len(rest) >= len(kCode) && string(rest[:len(kCode)]) == kCode {
+		rest = rest[len(kCode):]
+		n, digits := int32(0), 0
+		for len(rest) > 0 && rest[0] >= '0' && rest[0] <= '9' && digits < 2 {
+			n = n*10 + int32(rest[0]-'0')
+			rest = rest[1:]
+			digits++
+		}
+		if digits == 0 {
+			verifOutside("REST error body: code not a short number (outside the protojson model)")
+		}
+		st.Code = n
+		if len(rest) > 0 && rest[0] == ',' {
+			rest = rest[1:]
+			if len(rest) < len(kMsg) || string(rest[:len(kMsg)]) != kMsg {
+				verifOutside("REST error body: key other than message after code (outside the protojson model)")
+			}
+		}
+	}
+	if len(rest) >= len(kMsg) && string(rest[:len(kMsg)]) == kMsg {
+		rest = rest[len(kMsg):]
+		i := 0
+		for i < len(rest) && rest[i] != '"' {
+			if rest[i] == '\\' || rest[i] < 0x20 || rest[i] >= 0x7f {
+				verifOutside("REST error body: message needing JSON escapes (outside the protojson model)")
+			}
+			i++
+		}
+		if i == len(rest) {
+			verifOutside("REST error body: unterminated string (outside the protojson model)")
+		}
+		st.Message = string(rest[:i])
+		rest = rest[i+1:]
+	}
+	if len(rest) != 1 || rest[0] != '}' {
+		verifOutside("REST error body outside the canonical documents of the protojson model")
+	}
+	return nil
+}
+
+// Model of anypb.New for google.api.HttpBody (how a non-JSON REST error page is kept as an error detail).
+func verifModel_google_golang_org_protobuf_types_known_anypb_New(src proto.Message) (*anypb.Any, error) {
+	hb, ok := src.(*httpbody.HttpBody)
+	if !ok {
+		verifOutside("anypb.New (protobuf reflection) is outside the encoding")
+	}
+	var v []byte
+	if hb.ContentType != "" {
+		v = pbAppendLen(v, 1, []byte(hb.ContentType))
+	}
+	if len(hb.Data) > 0 {
+		v = pbAppendLen(v, 2, hb.Data)
+	}
+	return &anypb.Any{TypeUrl: "type.googleapis.com/google.api.HttpBody", Value: v}, nil
 }
